@@ -120,9 +120,8 @@ impl Unreal2Protocol {
 
             let mut buffer = Buffer::<LittleEndian>::new(&data);
 
-            let r = Self::consume_response_headers(&mut buffer, PacketKind::MutatorsAndRules);
-            if r.is_err() {
-                println!("{:?}", r);
+            // A packet that doesn't belong to this response ends the list
+            if Self::consume_response_headers(&mut buffer, PacketKind::MutatorsAndRules).is_err() {
                 break;
             }
 
